@@ -407,6 +407,7 @@ def run(res, tier):
     reach = cg.reachable(entries)
     R.rec_rule(res, fx, cg, entries, reach, 'R-REC', anchor_files=ANCHOR_FILES)
     R.crash_rule(res, fx, cg, entries, reach, 'R-CRASH')
+    common.nest_tls_rule(res, fx, 'R-REC', ANCHOR_FILES)
     # loops of the parsers themselves (functions defined in the parser files and reachable from the parse entries)
     sub = dict((k, v) for k, v in reach.items() if k in fx.funcs and TAINT_FILES.search(fx.funcs[k].file))
     nloops, ndec = progress_rule(res, fx, cg, sub, rule='PROGRESS')
